@@ -1258,12 +1258,17 @@ func samePrivOrNil(c *bip44.Coin, want *refbip.Key) string {
 
 func main() {
 	log.SetOutput(ioutil.Discard)
+	if vf.ChildMode() == "conc" {
+		concChild()
+		return
+	}
 	r = vf.Start("C16", "exploration")
 
 	for _, l := range []struct {
 		name string
 		f    func()
-	}{{"mnemonic", legMnemonic}, {"sentences", legSentences}, {"seed", legSeed}, {"chains", legChains}, {"malformed", legMalformed}, {"paths", legPaths}, {"bip44", legBIP44}} {
+	}{{"mnemonic", legMnemonic}, {"sentences", legSentences}, {"seed", legSeed}, {"chains", legChains}, {"malformed", legMalformed}, {"paths", legPaths}, {"bip44", legBIP44},
+		{"alias", legAlias}, {"concurrent", legConcurrent}} {
 		t0 := time.Now()
 		l.f()
 		r.Extra("wall_s."+l.name, time.Since(t0).Seconds())
@@ -1343,11 +1348,14 @@ func main() {
 	fl("bip44.agree:change=1", 200, 10000)
 	fl("bip44.agree:coin=8000(skycoin)", 60, 3000)
 	r.Floor("bip44.out-of-range.refused", 8)
+	aliasFloors(fl)
 
-	r.Finish("cases are generated from (seed, leg, index): entropies of all five sizes (zero, ones, leading zeros, last byte only, random); 16 kinds of sentence built from a valid mnemonic of each length (replaced / swapped / unknown / dropped / appended words, disallowed counts, surrounding or wrong white space incl. NBSP and U+3000, case, prefixes, random last word, random words) plus exhaustive enumeration of the last word; passphrases by class (empty, ASCII, long, already-NFKD non-ASCII, needing NFKD); derivation chains of depth 1..6 over boundary and random indices from seeds of 16..64 bytes with the public/private commutation at every step and a 255-deep chain; 20 kinds of well-formed and malformed 82-byte serialisations for both key kinds through the byte and text parsers; valid and invalid path strings; BIP44 coin/account/chain/index tuples; a case is distinct by its input bytes and non-trivial because the reference fixes its expected outcome",
+	r.Finish("cases are generated from (seed, leg, index): entropies of all five sizes (zero, ones, leading zeros, last byte only, random); 16 kinds of sentence built from a valid mnemonic of each length (replaced / swapped / unknown / dropped / appended words, disallowed counts, surrounding or wrong white space incl. NBSP and U+3000, case, prefixes, random last word, random words) plus exhaustive enumeration of the last word; passphrases by class (empty, ASCII, long, already-NFKD non-ASCII, needing NFKD); derivation chains of depth 1..6 over boundary and random indices from seeds of 16..64 bytes with the public/private commutation at every step and a 255-deep chain; 20 kinds of well-formed and malformed 82-byte serialisations for both key kinds through the byte and text parsers; valid and invalid path strings; BIP44 coin/account/chain/index tuples; an immutability leg that hands seeds, entropies, serialisation buffers (with and without spare capacity) and parent key objects of six origins (deserialised, from text, cloned, derived, neutered) to every entry point, compares every watched input byte (whole capacity regions, slice headers) with a private copy after each of 24 shuffled and repeated operations, deserialises the caller's bytes again and requires the reference value from every repeated and dependent call; a concurrent leg in which ~21 goroutines use one shared parent (different normal / hardened / public children, serialisation, identifiers) and shared seed / entropy buffers (mnemonic, entropy, seed, master key, BIP44 coin) at once, every result compared with the value the reference computed beforehand, run in this process and again in a -race build whose data-race reports with a frame in src/cipher are violations; a case is distinct by its input bytes and non-trivial because the reference fixes its expected outcome",
 		"the reference normalises passphrases with a 16-entry NFKD table (data from the Unicode Character Database); generators only emit characters whose normal form the table or its inert ranges define",
 		"sentence validity follows the rules the bip39 package documents (single ASCII spaces, no surrounding white space, lower-case list words, allowed counts) together with the BIP39 checksum",
 		"IL >= n / zero-key children (probability < 2^-127) are skipped, not asserted",
+		"a key returned by Deserialize*Key shares memory with the caller's buffer on the unchanged tree (documented behaviour of the package is silent); the immutability leg therefore only requires that the package itself never writes to an input, not that a deserialised key survives the caller overwriting its buffer; for seeds (NewMasterKey, NewPrivateKeyFromPath) and clones independence from the caller's later writes is required",
+		"the concurrent leg's verdict never depends on timing: every call has one expected value; interleavings only decide whether an existing defect shows, and the -race build reports conflicting accesses whether or not they corrupt a result",
 		"lib/refbip is checked against the published BIP32 (vectors 1 and 5), BIP39 (Trezor) and RIPEMD-160 vectors in its own tests")
 }
 
